@@ -12,8 +12,8 @@ func init() { register("C03", propC03) }
 
 func propC03() *Property {
 	return &Property{
-		ID:      "C03",
-		Decides: "the shape of the close protocol on every path. Sender (closeWithError, explored path-sensitively over the atoms first-call / err==nil / session live / Insert succeeded / close request transmitted): R03.1 on a graceful close (err == nil) of a live session no path reaches the discard of the send state (sendQueue.DeleteAll, sendBuf.DeleteAll) without first queueing the close request behind the pending data - whatever the session state; the queued segment is the close request itself, inserted under oLock; R03.2 after a successful Insert the send state is discarded only once lastSend has reached the close request's sequence number or the bounded wait is exhausted, and the close request is written directly only when it was not transmitted by the output loop; R03.3 on TCP the output loop and every direct transmission hold oLock, so the close request follows all queued data on the wire (shared with R01.4); R03.4 the send state is discarded nowhere else. Receiver: R03.5 a close request that arrives on the datagram transport ahead of segments not yet delivered (its sequence number is greater than nextRecv) marks the session incomplete before the session is closed, on every path; R03.6 Session.Read reports io.EOF only when nothing is left to hand out (receive queue empty, nothing copied, no kept tail) and the session is not marked incomplete - otherwise it returns data or io.ErrUnexpectedEOF. R03.7 the close request the datagram underlay sends on behalf of a session it no longer knows carries a sequence number strictly ahead of the peer's unAckSeq, so the receiver's gap test marks the session incomplete (finding F15, repaired in /repo d21d74d).",
+		ID:         "C03",
+		Decides:    "the shape of the close protocol on every path. Sender (closeWithError, explored path-sensitively over the atoms first-call / err==nil / session live / Insert succeeded / close request transmitted): R03.1 on a graceful close (err == nil) of a live session no path reaches the discard of the send state (sendQueue.DeleteAll, sendBuf.DeleteAll) without first queueing the close request behind the pending data - whatever the session state; the queued segment is the close request itself, inserted under oLock; R03.2 after a successful Insert the send state is discarded only once lastSend has reached the close request's sequence number or the bounded wait is exhausted, and the close request is written directly only when it was not transmitted by the output loop; R03.3 on TCP the output loop and every direct transmission hold oLock, so the close request follows all queued data on the wire (shared with R01.4); R03.4 the send state is discarded nowhere else. Receiver: R03.5 a close request that arrives on the datagram transport ahead of segments not yet delivered (its sequence number is greater than nextRecv) marks the session incomplete before the session is closed, on every path; R03.6 Session.Read reports io.EOF only when nothing is left to hand out (receive queue empty, nothing copied, no kept tail) and the session is not marked incomplete - otherwise it returns data or io.ErrUnexpectedEOF. R03.7 the close request the datagram underlay sends on behalf of a session it no longer knows carries a sequence number strictly ahead of the peer's unAckSeq, so the receiver's gap test marks the session incomplete (finding F15, repaired in /repo d21d74d).",
 		NotDecided: "what the peer application actually read (needs execution); the stream transport's receive side beyond ordering by the byte stream (a TCP close request cannot overtake data, by R03.3 and TCP itself); the case sendQueue.Insert fails because the queue is full; the random choice Read makes when closedChan and inputErr are both ready.",
 		Rules: []Rule{
 			{ID: "R03.1", Floor: 4, Text: "graceful close queues the close request behind pending data before any discard", Run: r03_1},
@@ -742,7 +742,6 @@ func r03_7(c *RC) {
 		c.OK("synthetic-close-is-not-clean", fn.Pos(), "the datagram event loop builds no close request of its own")
 	}
 }
-
 
 // closeWait summarises a helper that performs the bounded wait for the close
 // request: a loop with a constant budget that sleeps, compares lastSend.Load()
